@@ -10,7 +10,8 @@ COQ_TARGETS = ["Properties/C06.vo", "Model/Dispatch.vo"]
 THEOREMS = ["C06_card_monotone", "C06_card_positive", "C06_sum_antitone",
             "C06_increment_is_renyi_spacing", "C06_register_threshold", "C06_register_antitone",
             "C06_sequential_and_any_parallel_sum_agree", "C06_any_sum_tree_is_accurate", "C06_estimates_in_inverse_ratio_of_sums", "C06_source_estimators_are_the_proved_estimator",
-            "C06_source_spread_is_the_advertised_spread", "C06_source_register_law_is_the_proved_law"]
+            "C06_source_spread_is_the_advertised_spread", "C06_source_register_law_is_the_proved_law",
+            "C06_item_never_lowers_estimate", "C06_merge_never_lowers_estimate"]
 AXIOMS_ALLOWED = setflib.REAL_AXIOMS
 TRANSLATORS = [("setsketch-formulas", setflib.translate), ("setsketch-register-law", setflib.translate_setlaw),
                ("setsketch-formulas-from-source", setflib.translate_src("set"))]
